@@ -213,7 +213,9 @@ PROPS["C13"] = dict(
          "time, one frees after 1..5 ms, one never: the send must complete when the first peer frees, not at the blocked-on peer's timeout), "
          "churn histories (add/remove/toggle-full/send with one always-ready member: exactly-once, removed peers get nothing, no starvation "
          "within 2n sends), first-peer histories (2..6 sender tasks parked in route_message(wait_for_peer) with no connection, one peer added "
-         "after 0..10 ms: every send must complete and be accepted within 60 s of virtual time). The single-waiter check-then-park race is decided "
+         "after 0..10 ms: every send must complete and be accepted within 60 s of virtual time), rotation histories (one sender, 2..5 peers always "
+         "ready, random add/remove between sends, async and sync routing path: between two consecutive deliveries to the same peer every peer "
+         "that was a member the whole time receives exactly one message - a removal must not make the rotation skip an idle peer). The single-waiter check-then-park race is decided "
          "under C08. (e2e) 2/4/8 tasks blocked in PUSH.send() before any peer exists, then one PULL connects over tcp/inproc/ipc: all messages "
          "arrive once and all sends return Ok; real PUSH (SNDHWM 8) -> 1..4 PULLs over tcp, optionally "
          "with a raw peer that handshakes and never reads: exactly-once over the readers, no send slower than 1.5 s. distinct = case parameters.",
